@@ -570,6 +570,11 @@ class Engine:
         self.auto_inline = True   # crate-local acyclic helpers are executed, not havocked ...
         self.keep = []            # ... except callees matching these regexes (kept as trace events)
         self.auto_inline_max_blocks = 80
+        self.keep_path = None       # predicate on the outcome: which paths to retain (None = all)
+        self.outcomes = {}
+        self.npaths = 0
+        self.deadline = None
+        self.max_recursion = 1      # how many activations of one function may be on the stack (bounded recursion)
         self.cut_blocks = set()     # blocks of the explored function at which a second visit ends the path (segment cut)
         self.inline_cyclic = False  # bounded-loop mode: cyclic crate functions are executed too (max_visits per block)
         self.auto_inline_depth = 5
@@ -1120,6 +1125,8 @@ class Engine:
     def _explore(self, fn, args=None, start_bb=0, setup=None, max_visits=None):
         global _counter
         self.paths = []
+        self.outcomes = {}
+        self.npaths = 0
         self.solver.reset()
         self.solver.set("timeout", self.timeout_ms)
         if max_visits is not None:
@@ -1156,9 +1163,16 @@ class Engine:
         return self.paths
 
     def _end(self, st, outcome, detail=None, ret=None, site=None):
-        self.paths.append(Path(st, outcome, detail, ret, site))
-        if len(self.paths) > self.max_paths:
+        self.outcomes[outcome] = self.outcomes.get(outcome, 0) + 1
+        self.npaths += 1
+        if self.keep_path is None or self.keep_path(outcome):
+            self.paths.append(Path(st, outcome, detail, ret, site))
+        if self.npaths > self.max_paths:
             raise Unsupported("more than %d paths" % self.max_paths)
+        if self.deadline is not None:
+            import time
+            if time.time() > self.deadline:
+                raise Unsupported("exploration exceeded its time budget after %d paths" % self.npaths)
 
     def _fork(self, st, alternatives):
         """alternatives: list of (condition term or None, continuation(st)). Explores each feasible one."""
@@ -1384,7 +1398,7 @@ class Engine:
             if target is not None:
                 if ((not self.inline_cyclic and not target.is_acyclic()) or len(target.blocks) > self.auto_inline_max_blocks
                         or len(st.frames) > self.auto_inline_depth
-                        or any(f.fn is target for f in st.frames)):
+                        or sum(1 for f in st.frames if f.fn is target) >= self.max_recursion):
                     target = None
         if target is not None:
             self.inlined_fns.add(target)
